@@ -214,7 +214,7 @@ class Run:
             # failed on the default seed
             code_fail = []
             for f in r.failures:
-                in_base = baseline is None or f["function"] in baseline["verified_functions"]
+                in_base = baseline is None or any(b == f["function"] or b.endswith("::" + f["function"]) for b in baseline["verified_functions"])
                 on_code = f["function"] in st["code_functions"]
                 if in_base and on_code:
                     code_fail.append(f)
